@@ -272,6 +272,7 @@ impl IoLoop {
             },
             false,
             |_, state| state.is_some(),
+            false,
         )?;
         Ok(state.unwrap())
     }
@@ -332,6 +333,7 @@ impl IoLoop {
             Self::handle_handshake_event,
             have_written_to_socket,
             Self::is_handshake_done,
+            false,
         );
         match result {
             Ok(()) => (),
@@ -425,6 +427,7 @@ impl IoLoop {
             Self::handle_steady_event,
             true,
             Self::is_connection_done,
+            true,
         )?;
         match state {
             ConnectionState::Steady(_) => unreachable!(),
@@ -539,6 +542,7 @@ impl IoLoop {
         mut handle_event: F,
         mut have_written_to_socket: bool,
         is_done: G,
+        done_is_final: bool,
     ) -> Result<()>
     where
         S: Evented,
@@ -599,8 +603,9 @@ impl IoLoop {
                 if let Err(err) = handle_event(self, stream, state, event) {
                     // The peer may drop the socket right after its final frame (e.g., the
                     // server's close-ok); once we have reached our final state, losing the
-                    // socket is not an error.
-                    if is_done(self, state) {
+                    // socket is not an error. That only holds for the last loop we run:
+                    // a handshake that is done still has a connection to run on this socket.
+                    if done_is_final && is_done(self, state) {
                         return Ok(());
                     }
                     return Err(err);
